@@ -9,6 +9,9 @@
 //	kind 1  consistent fragments of 1..3 interleaved datagrams (8-aligned cuts into <= 5 pieces,
 //	        overlapping re-cuts, stretched pieces, duplicates, random or exhaustive orders,
 //	        sometimes one piece missing), default limits, no expiry
+//	        plus "many pieces" runs: datagrams of 17..64 (a few ~130) 8-byte pieces in random and
+//	        adversarial orders (every other piece first, descending, delayed neighbours), re-cuts
+//	        overlapping 2-3 neighbouring pieces, duplicates, one or two interleaved ids
 //	kind 2  the same with a 40 ms reassembly timeout and 130 ms sleeps between bursts; the model
 //	        gets now = burst number and timeout = 0 (expired <=> created in an earlier burst);
 //	        a run whose burst took longer than 15 ms is repeated
@@ -153,7 +156,7 @@ func encodeBytes(b []byte, salts []int) string {
 }
 
 func plSegOf(d *dgT, first, n int) string {
-	if n <= 12 {
+	if n <= 3 {
 		if n == 0 {
 			return "[]"
 		}
@@ -448,6 +451,124 @@ func genConsistent(r *gen.Rng, kind int, big bool) *caseT {
 	return c
 }
 
+// manySeq: a datagram cut into MANY 8-byte pieces (the hole list of the reassembler grows past
+// 16, 32, 64 ... records), delivered in random or adversarial orders, with re-cuts overlapping
+// 2-3 neighbouring pieces and duplicates mixed in.
+func manySeq(r *gen.Rng, d *dgT) []opT {
+	n := len(d.data)
+	np := (n + 7) / 8
+	pc := func(k, w int) piece { // w pieces starting at piece k
+		last := 8*(k+w) - 1
+		if last > n-1 {
+			last = n - 1
+		}
+		return piece{8 * k, last}
+	}
+	order := []int{}
+	switch r.Intn(6) {
+	case 0: // random
+		for k := 0; k < np; k++ {
+			order = append(order, k)
+		}
+		for i := np - 1; i > 0; i-- {
+			j := r.Intn(i + 1)
+			order[i], order[j] = order[j], order[i]
+		}
+	case 1: // every other piece first (holes multiply), then the gaps ascending
+		for k := 0; k < np; k += 2 {
+			order = append(order, k)
+		}
+		for k := 1; k < np; k += 2 {
+			order = append(order, k)
+		}
+	case 2: // every other piece first, then the gaps in random order
+		for k := 0; k < np; k += 2 {
+			order = append(order, k)
+		}
+		gaps := []int{}
+		for k := 1; k < np; k += 2 {
+			gaps = append(gaps, k)
+		}
+		for i := len(gaps) - 1; i > 0; i-- {
+			j := r.Intn(i + 1)
+			gaps[i], gaps[j] = gaps[j], gaps[i]
+		}
+		order = append(order, gaps...)
+	case 3: // descending
+		for k := np - 1; k >= 0; k-- {
+			order = append(order, k)
+		}
+	case 4: // ascending with two or three neighbouring pieces delayed
+		a := 1 + r.Intn(np-3)
+		w := 2 + r.Intn(2)
+		delayed := []int{}
+		for k := 0; k < np; k++ {
+			if k >= a && k < a+w && k < np-1 {
+				delayed = append(delayed, k)
+			} else {
+				order = append(order, k)
+			}
+		}
+		at := len(order) - r.Intn(len(order)/2+1)
+		order = append(order[:at:at], append(delayed, order[at:]...)...)
+	default: // every third, then the rest descending
+		for k := 0; k < np; k += 3 {
+			order = append(order, k)
+		}
+		for k := np - 1; k >= 0; k-- {
+			if k%3 != 0 {
+				order = append(order, k)
+			}
+		}
+	}
+	if r.Intn(12) == 0 && len(order) > 1 { // one piece never arrives
+		k := r.Intn(len(order))
+		order = append(order[:k:k], order[k+1:]...)
+	}
+	ops := []opT{}
+	for _, k := range order {
+		ops = append(ops, mkOp(d, pc(k, 1)))
+	}
+	// duplicates and overlapping re-cuts, inserted at random positions (more towards the end,
+	// when many hole records exist)
+	extra := 2 + r.Intn(2+np/6)
+	for e := 0; e < extra; e++ {
+		var o opT
+		if r.Intn(3) == 0 {
+			o = mkOp(d, pc(r.Intn(np), 1))
+		} else {
+			w := 2 + r.Intn(2)
+			o = mkOp(d, pc(r.Intn(np-w+1), w))
+		}
+		lo := 0
+		if r.Bool() {
+			lo = len(ops) / 2
+		}
+		at := lo + r.Intn(len(ops)-lo+1)
+		ops = append(ops[:at:at], append([]opT{o}, ops[at:]...)...)
+	}
+	return ops
+}
+
+func genMany(r *gen.Rng, huge bool) *caseT {
+	c := &caseT{kind: 1, high: fragmentation.HighFragThreshold, low: fragmentation.LowFragThreshold,
+		timeout: 1000000, real: fragmentation.DefaultReassembleTimeout}
+	nid := 1 + r.Intn(2)
+	ids := pickIds(r, nid)
+	seqs := [][]opT{}
+	for i, id := range ids {
+		np := 17 + r.Intn(48) // 17..64 pieces
+		if huge && i == 0 {
+			np = 120 + r.Intn(16)
+		}
+		n := 8*np - r.Intn(8)
+		c.dgs = append(c.dgs, newDatagram(r, id, n))
+		seqs = append(seqs, manySeq(r, &c.dgs[len(c.dgs)-1]))
+	}
+	c.ops = interleave(r, seqs)
+	return c
+}
+
 // exhaustive: every cut of a datagram of size n into <= maxPieces pieces, every order
 func genExhaustive(r *gen.Rng, n, maxPieces int, emit func(*caseT)) {
 	m := (n - 1) / 8
@@ -590,6 +711,7 @@ func main() {
 	nbig := flag.Int("big", 3, "number of runs with a datagram near the maximum size")
 	exh := flag.Int("exh", 24, "exhaustive cuts and orders for datagram sizes up to this")
 	nhash := flag.Int("hash", 100, "number of Hash3Words cases")
+	nmany := flag.Int("many", 200, "number of runs with datagrams of 17..64 (a few ~130) 8-byte pieces")
 	spread := flag.Int("spread", 59, "distance between two runs with a large datagram in the output")
 	flag.Parse()
 	r := gen.New(*seed)
@@ -615,6 +737,9 @@ func main() {
 		default:
 			add(genMalformed(r))
 		}
+	}
+	for i := 0; i < *nmany; i++ {
+		add(genMany(r, i%20 == 7))
 	}
 	// datagrams near the maximum size are the expensive ones to judge: one at the head of every
 	// block of *spread cases, so that they land in different shards of the in-Coq evaluation
